@@ -44,9 +44,10 @@ ASSUMPTIONS = [
 FORMS = ['convert1', 'convert2', 'convertdict', 'convertwhere',
          'convertpassrow', 'convertmethod', 'convertall', 'convertnumbers',
          'format', 'formatall', 'interpolate', 'interpolateall', 'fieldmap',
-         'fieldmap2', 'rowmap', 'rowmapmany', 'fieldmapdict']
+         'fieldmap2', 'rowmap', 'rowmapmany', 'fieldmapdict',
+         'fieldmapexpr']
 TWO_FIELD = ('convert2', 'convertdict', 'convertall', 'fieldmap2')
-NATURAL = ('fieldmapdict',
+NATURAL = ('fieldmapdict', 'fieldmapexpr',
            'convertmethod', 'convertnumbers', 'format', 'formatall',
            'interpolate', 'interpolateall')
 
@@ -363,6 +364,13 @@ def _build(e, case, fl, policy, mode, tbl):
         return e.interpolate(tbl, 'v', '%d', **evkw)
     if form == 'interpolateall':
         return e.interpolateall(e.cut(tbl, 'v'), '%d', **evkw)
+    if form == 'fieldmapexpr':
+        # a mapping given as an expression string: evaluating it on a text
+        # cell fails (TypeError)
+        from collections import OrderedDict
+        m = OrderedDict([('id', 'id'), ('v', '{v} + 1'), ('w', 'w')] +
+                        ([('x', 'x')] if case['extra_col'] else []))
+        return e.fieldmap(tbl, m, **evkw)
     if form == 'fieldmapdict':
         # a translation dictionary: looking an unhashable cell up in it
         # fails (TypeError), which is a failing mapping like any other
@@ -527,6 +535,8 @@ def _natural_model(case, failcells, policy):
             good = 'ABC%d' % r
         elif form == 'fieldmapdict':
             good = _TRANSLATE.get(v, v)
+        elif form == 'fieldmapexpr':
+            good = v + 1
         elif form == 'convertnumbers':
             good = v
         elif form in ('format', 'formatall'):
